@@ -28,6 +28,7 @@ fn base_cfg(time_based: bool) -> CbCfg {
         custom_classifier: false,
         fallback: false,
         fallback_gated: false,
+        classifier_first: false,
     }
 }
 
@@ -58,6 +59,13 @@ fn c03_configs(tier: Tier) -> Vec<c03::C03> {
                 cfg.min_calls = Some(1);
                 v.push(c03::C03 { cfg, callers: 3, max_ticks: tier.pick(2, 4), max_drops: 0, max_force: 1, grid: 10 });
             }
+            // "stay open until closed by hand": wait_duration_in_open = Duration::MAX
+            let mut cfg = base_cfg(time_based);
+            cfg.fallback = fallback;
+            cfg.window_size = 1;
+            cfg.min_calls = Some(1);
+            cfg.wait_ms = handle::WAIT_FOREVER;
+            v.push(c03::C03 { cfg, callers: 3, max_ticks: tier.pick(2, 3), max_drops: 0, max_force: 1, grid: 10 });
             // the same with everything in the seconds range: wait 1.01 s, time window 10.1 s
             let mut cfg = base_cfg(time_based);
             cfg.fallback = fallback;
@@ -96,6 +104,14 @@ fn c09_configs(tier: Tier) -> Vec<c09::C09> {
             if permitted == 2 {
                 // callers 0,1 are used by the prelude; 2,3,4 arrive in the second half-open period
                 v.push(c09::C09 { cfg: cfg.clone(), callers: 5, max_ticks: 0, max_drops: 1, prepared: true, straggler: true, nested: 0, grid: 10 });
+            }
+            // a custom failure classifier (a type-changing builder call that copies every other
+            // setting by hand), installed after and before the other settings
+            for classifier_first in [false, true] {
+                let mut cc = cfg.clone();
+                cc.custom_classifier = true;
+                cc.classifier_first = classifier_first;
+                v.push(c09::C09 { cfg: cc, callers: permitted + 2, max_ticks: 1, max_drops: 0, prepared: true, straggler: false, nested: 0, grid: 10 });
             }
             if permitted == 2 {
                 // everything in the seconds range: wait 3.03 s, time window 10.1 s
